@@ -87,9 +87,14 @@ func (fm *Frame) Eval(src parse.Source, r diag.Ranger, ns *Ns) (*Ns, error) {
 	return newLocal, exec()
 }
 
-// InputChan returns a channel from which input can be read.
+// InputChan returns a channel from which input can be read. If port 0 has no
+// value channel (it is closed, or it is a file opened for output), the channel
+// produces no values.
 func (fm *Frame) InputChan() chan any {
-	return fm.ports[0].Chan
+	if ch := fm.ports[0].Chan; ch != nil {
+		return ch
+	}
+	return ClosedChan
 }
 
 // InputFile returns a file from which input can be read.
@@ -135,7 +140,7 @@ func (fm *Frame) IterateInputs(f func(any)) {
 		wg.Done()
 	}()
 	go func() {
-		for v := range fm.ports[0].Chan {
+		for v := range fm.InputChan() {
 			inputs <- v
 		}
 		wg.Done()
